@@ -1,5 +1,5 @@
 """C04 - signing digest is a deterministic, injective function of the message, laid out as the contracts parse it."""
-from checks import vaacommon, c04gen
+from checks import vaacommon, c04gen, proccommon
 
 
 def gen(ctx):
@@ -10,9 +10,14 @@ def run(ctx):
     facts = gen(ctx)
     ctx.cov["gen_facts"] = facts
     if facts is not None:
-        ctx.prove(families=("vaa",))
+        ctx.prove(families=("vaa", "processor"))
     vaacommon.run_vaa(ctx, "c04", ("body", "eq", "ne"))
-    ctx.cov["rule"] = ("body: SerializeBody/SigningMsg of random VAAs vs the model's bytes and Keccak(Keccak(.)) recomputed by the harness; "
+    # the processor's VAA construction from a chain message: what it signs must be the digest of exactly that message
+    # (clause signed-digest-differs-from-message on the processor family's scenarios; `dig=` is computed by the harness)
+    vaa_rule = None
+    proccommon.run_processor(ctx, "C04", "")
+    proc_rule = ctx.cov.get("rule", "")
+    ctx.cov["rule"] = ("processor (handleMessage's VAA construction): " + proc_rule[:300] + " ... | vaa: body: SerializeBody/SigningMsg of random VAAs vs the model's bytes and Keccak(Keccak(.)) recomputed by the harness; "
                        "eq: digest unchanged under version / set index / signatures / nanosecond changes; ne: each single body-field change "
                        "(incl. moving a byte across the consistency-level/payload boundary) changes signing body and digest")
     ctx.cov["trusted_base"] += ["checks/c04gen.py: regex extraction of parseVM (Messages.sol) and parseAndVerifyVAA (governance.ral) offsets; contracts never executed",
@@ -25,9 +30,11 @@ def run(ctx):
         bad = [e for e in facts["solBody"] if e not in want] + [e for e in want if e not in facts["solBody"]]
         badr = [e for e in facts["ralBody"] if e not in want]
         flags = [k for k in ("goDoubleHash", "solDoubleHash", "ralDoubleHash", "solVersionCheck") if not facts[k]]
-        if bad or badr or flags or facts["ralBodyStart"] != (6, 66) or facts.get("ralConvMismatch"):
+        if bad or badr or flags or facts["ralBodyStart"] != (6, 66) or facts.get("ralConvMismatch") or facts.get("ralBodyStartCount") != "signatureSize":
             ctx.spec_violations.append({"key": "contract-layout-mismatch",
                                         "what": "contract parser layout deviates from the Go serializer: sol=%s ral=%s flags=%s" % (bad, badr, flags),
                                         "replay": {"solBody": facts["solBody"], "ralBody": facts["ralBody"], "expected": want,
                                                    "ralBodyStart": facts["ralBodyStart"], "missing": flags,
-                                                   "ralConvMismatch": facts.get("ralConvMismatch")}})
+                                                   "ralConvMismatch": facts.get("ralConvMismatch"),
+                                                   "ralBodyStartCount": facts.get("ralBodyStartCount"),
+                                                   "note": "the hashed body must start after ALL signature records present (6 + signatureSize*66); any VAA with a different number of records is hashed from the wrong offset"}})
